@@ -217,6 +217,8 @@ class _CppTranslator(TranslatorBase):
     block_template = CPP_SOURCE_TEMPLATE
 
     def translate_enum(self, node):
+        # enumerators may be aliases of one value: one case label per value, the name the python codec prints
+        names = list({m.value: m.name for m in node.members}.values())
         return (
                 'template <>\n' +
                 'const char* print_traits<{0}>::to_literal({0} x)\n'.format(node.name) +
@@ -225,7 +227,7 @@ class _CppTranslator(TranslatorBase):
                     'switch (x)\n' +
                     '{\n' +
                     _indent(
-                        ''.join('case {0}: return "{0}";\n'.format(m.name) for m in node.members) +
+                        ''.join('case {0}: return "{0}";\n'.format(m.name) for m in node.members if m.name in names) +
                         'default: return 0;\n'
                     ) +
                     '}\n'
